@@ -447,6 +447,18 @@ func c02Gen(tier string, rng *rand.Rand) []c02Case {
 		for j := 0; j < 3; j++ {
 			tag := tags[(i*3+j)%len(tags)]
 			add(c02Case{WT: "string", S: s, Tag: tag, RT: "string", RTag: tag, Req: true})
+			cs[len(cs)-1].Suffix = suffixes[j] // every length as the very last bytes of the input, before a struct end, before another field
+		}
+	}
+	// every type once as the very last bytes of the input (nothing behind the field) and once before further bytes
+	for _, c := range []c02Case{{WT: "bool", Z: 1}, {WT: "int8", Z: -5}, {WT: "uint8", Z: 200}, {WT: "int16", Z: -300}, {WT: "uint16", Z: 40000}, {WT: "int32", Z: -70000},
+		{WT: "uint32", Z: 3000000000}, {WT: "int64", Z: -5000000000}, {WT: "f32", U: 0x3dcccccd}, {WT: "f64", U: 0x3fb999999999999a}, {WT: "string", S: []byte{}}, {WT: "string", S: []byte("x")},
+		{WT: "bool", Z: 0}, {WT: "int32", Z: 0}, {WT: "int64", Z: 0}, {WT: "f32", U: 0}, {WT: "f64", U: 0}} {
+		for _, tag := range []int{0, 14, 15, 255} {
+			for _, sf := range suffixes {
+				c.Tag, c.RTag, c.RT, c.Req, c.Suffix = tag, tag, c.WT, true, sf
+				cs = append(cs, c)
+			}
 		}
 	}
 	// cross-tag reads: the wanted tag is after / before the written one (skip, absent, required-missing)
